@@ -566,7 +566,11 @@ def sc_soft_limit(params, obs, save):
     hb = Heartbeat()
     up = []
     params = dict(params, enable_timeouts=True)   # per-job limits need the scanner
-    pool = _mkpool(params, up)
+    extra = None
+    if params.get('init_signals'):
+        extra = {'initializer': tasks.init_touch_signals,
+                 'initargs': (params['init_signals'],)}
+    pool = _mkpool(params, up, extra)
     cbs = {}
     kw = {}
     if params.get('job_soft') is not None:
